@@ -60,6 +60,6 @@ Mark == /\ JustRet => /\ CheckInv("PrivateCopies", Prev.mv # -1 /\ \A d \in Logg
                        /\ CheckInv("FreshAfterInvalidate", FreshAfterInvalidate)
         /\ CheckInv("FetchExactlyMissing", FetchExactlyMissing)
         /\ CheckInv("TypeOK", TypeOK)
-        /\ HWMark
-ActOK == CheckInv("DropsAffected", DropsAffected)
+ActOK == /\ CheckInv("DropsAffected", DropsAffected)
+         /\ HWMarkA
 ====
